@@ -91,7 +91,7 @@ type MRealm struct {
 	Strict        bool
 	AllowDisclose bool
 	MetaStrict    bool
-	MetaModify    bool // wamp.session.modify_details is provided
+	MetaModify    bool        // wamp.session.modify_details is provided
 	Authz         *TableAuthz // this realm's Authorizer (nil: the executor's, if any)
 	LocalAuthz    bool        // ... consulted for local sessions too
 	Sess          map[int]*MSess
